@@ -12,6 +12,7 @@ from core import proto
 from .common import case, ordinal_instance, strict, rand_perm
 
 ID = "C04"
+COVER_FILES = ['properties/subdomains/ordinal/singlecrossing.py']
 RULE = ("exhaustive: every set of distinct strict orders over 3 alternatives (2^6 subsets, ids 0..2 and 1..3) in EVERY "
         "storage order; over 4 alternatives every set of n <= 4 (quick) / n <= 5 (thorough) distinct orders, in every "
         "storage order for n <= 3 (quick) / n <= 4 (thorough), else sorted, reversed and one random shuffle; "
